@@ -30,6 +30,9 @@ def make_grid(spec, share=False):
 
     k = spec["kind"]
     if k == "cart":
+        if spec.get("unit"):  # the UnitGrid subclass (unit spacing, origin 0)
+            assert all(d == 1.0 for d in spec["dx"]) and all(o == 0.0 for o in spec["origin"])
+            return pde.UnitGrid(spec["shape"], periodic=list(spec["periodic"]))
         bounds = [(o, o + n * d) for o, n, d in zip(spec["origin"], spec["shape"], spec["dx"])]
         return pde.CartesianGrid(bounds, spec["shape"], periodic=list(spec["periodic"]))
     if k == "polar":
